@@ -1,153 +1,38 @@
-(* C02 / C03 / C09 — six- and seven-card ranking is the best five-card sub-hand, reported with a
-   sorted witness; more cards never weaken a hand. General proofs: no enumeration of hands. *)
+(* C02 / C09 — six- and seven-card ranking is the best five-card sub-hand; more cards never weaken a
+   hand. Built on Proofs/TableFacts.v (the loop over a well-formed table) plus COMPLETENESS of the
+   regenerated slot tables. General proofs: no enumeration of hands. *)
 From Coq Require Import Sorting.Permutation Sorting.Sorted.
 From CKC Require Import Base.Prelude Base.Reflect Base.SortN Base.Combs Spec.Layout Spec.Poker.
 From CKC Require Import Model.Card Model.Hands Model.Five Model.HandRank.
 From CKC Require Import Proofs.CardFacts Proofs.SortFacts Proofs.CombFacts Proofs.BitFacts Proofs.FiveFacts
-  Proofs.PokerFacts Proofs.RankedFacts Proofs.ShapeFacts Proofs.ValidFacts Proofs.C01 Proofs.C18 Proofs.BestFacts.
+  Proofs.PokerFacts Proofs.RankedFacts Proofs.ShapeFacts Proofs.ValidFacts Proofs.C01 Proofs.C18 Proofs.BestFacts
+  Proofs.TableFacts.
 From CKC Require Import Gen.Consts Gen.Decks.
 Open Scope N_scope.
 
-Definition HandN (n : nat) (ws : list N) : Prop := length ws = n /\ Forall RealCard ws /\ NoDup ws.
-
-(* the poker value of five cards under the rules (Spec): the ordinal of their shape *)
-Definition value5 (ws : list N) : N := ordinal (shape_of ws).
-
-Lemma sub_hand n ws c : HandN n ws -> Subseq c ws -> length c = 5%nat -> Hand5 c.
-Proof.
-  intros (HL & HR & HN) HS HC. repeat split; [exact HC| |eapply Subseq_NoDup; eauto].
-  apply Forall_forall. intros x Hx. rewrite Forall_forall in HR. apply HR. eapply Subseq_incl; eauto.
-Qed.
-
-Lemma value5_range c : Hand5 c -> 1 <= value5 c <= 7462.
-Proof. intros H. apply (ordinal_range (shape_of c)), shape_class, H. Qed.
-
-(* slot order does not matter for the rule-based value *)
-Lemma value5_perm s c : Hand5 s -> Permutation s c -> value5 s = value5 c.
-Proof.
-  intros HS HP.
-  assert (HC : Hand5 c).
-  { destruct HS as (HL & HR & HN). repeat split.
-    - rewrite <- HL. symmetry. apply Permutation_length, HP.
-    - eapply Permutation_Forall; eauto.
-    - eapply Permutation_NoDup; eauto. }
-  pose proof (hrv5_ordinal false s HS) as E1. pose proof (hrv5_ordinal false c HC) as E2.
-  rewrite (hrv5_perm false s c (proj1 HS) HP) in E1. unfold value5. congruence.
-Qed.
-
-(* ---- the loop on n distinct real cards, for any table listing every 5-of-n slot combination ---- *)
+(* a table that lists every 5-of-n slot combination (as a set) *)
 Definition complete_table (n : nat) (perms : list (list N)) : Prop :=
-  (forall r, In r perms <-> In r (combs (N_range (N.of_nat n)) 5)) /\ perms <> [].
-
-Definition sel (ws : list N) (p : list N) : list N := map (fun i => nthN ws i 0) p.
-
-Lemma perm_in_range n perms (ws : list N) p :
-  complete_table n perms -> length ws = n -> In p perms -> Forall (fun i => (N.to_nat i < length ws)%nat) p.
-Proof.
-  intros [PC _] HL Hp. apply PC, In_combs in Hp. destruct Hp as [Hs _].
-  apply Forall_forall. intros i Hi. apply (Subseq_incl _ _ Hs) in Hi. apply In_N_range in Hi. lia.
-Qed.
+  forall r, In r perms <-> In r (combs (N_range (N.of_nat n)) 5).
 
 Lemma sel_in_combs n perms (ws : list N) p :
   complete_table n perms -> length ws = n -> In p perms -> In (sel ws p) (combs ws 5).
 Proof.
-  intros [PC _] HL Hp. rewrite combs_select. unfold lenN. rewrite HL.
-  apply in_map. apply PC, Hp.
+  intros PC HL Hp. rewrite combs_select. unfold lenN. rewrite HL.
+  apply (in_map (map (fun i => nthN ws i 0))). apply PC, Hp.
 Qed.
 
 Lemma combs_from_perm n perms (ws : list N) c :
   complete_table n perms -> length ws = n -> In c (combs ws 5) -> exists p, In p perms /\ c = sel ws p.
 Proof.
-  intros [PC _] HL Hc. rewrite combs_select in Hc. unfold lenN in Hc. rewrite HL in Hc.
+  intros PC HL Hc. rewrite combs_select in Hc. unfold lenN in Hc. rewrite HL in Hc.
   apply in_map_iff in Hc. destruct Hc as [p [<- Hp]]. exists p. split; [apply PC, Hp | reflexivity].
 Qed.
 
-Definition cands (perms : list (list N)) (ws : list N) : list (N * list N) :=
-  map (fun p => (value5 (sel ws p), sel ws p)) perms.
-
-Lemma Forall2_map_r {A B} (R : A -> B -> Prop) (f : A -> B) (l : list A) :
-  (forall x, In x l -> R x (f x)) -> Forall2 R l (map f l).
-Proof.
-  induction l as [|a l IH]; intros H; cbn [map]; constructor.
-  - apply H. left. reflexivity.
-  - apply IH. intros x Hx. apply H. right. exact Hx.
-Qed.
-
-Lemma loop_pure n perms chk ws :
-  complete_table n perms -> HandN n ws ->
-  fold_left (best_step chk ws) perms (Ok (0, FIVE_DEFAULT)) = Ok (best_of (cands perms ws) (0, FIVE_DEFAULT)).
-Proof.
-  intros T H. apply best_fold_pure. unfold cands. apply Forall2_map_r. intros p Hp. cbn [fst snd].
-  pose proof H as (HL & HR & HN).
-  split.
-  - apply select_map. eapply perm_in_range; eauto.
-  - apply hrv5_ordinal. pose proof (sel_in_combs n perms ws p T HL Hp) as Hc. apply In_combs in Hc.
-    destruct Hc as [Hs Hl]. eapply sub_hand; eauto.
-Qed.
-
-(* THE RESULT for the table-driven loop *)
-Lemma best_ok n perms chk ws :
-  complete_table n perms -> HandN n ws ->
-  exists v h,
-    hrvh_best chk perms ws = Ok (v, sort_desc h) /\
-    In h (combs ws 5) /\ v = value5 h /\
-    (forall c, In c (combs ws 5) -> v <= value5 c).
-Proof.
-  intros T H. pose proof H as (HL & HR & HN).
-  unfold hrvh_best. rewrite (loop_pure n perms chk ws T H).
-  assert (Hnz : forall x, In x (cands perms ws) -> fst x <> 0).
-  { intros x Hx. unfold cands in Hx. apply in_map_iff in Hx. destruct Hx as [p [<- Hp]]. cbn [fst].
-    pose proof (sel_in_combs n perms ws p T HL Hp) as Hc. apply In_combs in Hc. destruct Hc as [Hs Hl].
-    pose proof (value5_range _ (sub_hand _ _ _ H Hs Hl)). lia. }
-  assert (Hne : cands perms ws <> []).
-  { unfold cands. destruct T as [_ PN]. destruct perms; [congruence | discriminate]. }
-  pose proof (best_of_min (cands perms ws) FIVE_DEFAULT Hne Hnz) as HB. cbv zeta in HB.
-  destruct (best_of (cands perms ws) (0, FIVE_DEFAULT)) as [v h]. cbn [fst] in HB. cbn [bind].
-  destruct HB as (Hin & _ & Hmin).
-  exists v, h. split; [reflexivity|].
-  unfold cands in Hin. apply in_map_iff in Hin. destruct Hin as [p [Heq Hp]]. injection Heq as Hv Hh.
-  subst h. repeat split.
-  - eapply sel_in_combs; eauto.
-  - symmetry. exact Hv.
-  - intros c Hc. destruct (combs_from_perm n perms ws c T HL Hc) as [q [Hq ->]].
-    specialize (Hmin (value5 (sel ws q), sel ws q)). cbn [fst] in Hmin. apply Hmin.
-    unfold cands. apply in_map_iff. exists q. split; [reflexivity | exact Hq].
-Qed.
-
 (* the current tables list every slot combination (C18, re-proved from the regenerated data) *)
-Lemma six_complete : forall r, In r SIX_PERMUTATIONS <-> In r (combs (N_range (N.of_nat 6)) 5).
+Lemma six_complete : complete_table 6 SIX_PERMUTATIONS.
 Proof. destruct slot_tables_ok as (_ & _ & (_ & H & _) & _). exact H. Qed.
-Lemma seven_complete : forall r, In r SEVEN_PERMUTATIONS <-> In r (combs (N_range (N.of_nat 7)) 5).
+Lemma seven_complete : complete_table 7 SEVEN_PERMUTATIONS.
 Proof. destruct slot_tables_ok as (_ & _ & _ & _ & (_ & H & _) & _). exact H. Qed.
-Lemma six_nonempty : SIX_PERMUTATIONS <> [].
-Proof. destruct slot_tables_ok as (_ & _ & (_ & _ & H) & _). intros E. rewrite E in H. discriminate. Qed.
-Lemma seven_nonempty : SEVEN_PERMUTATIONS <> [].
-Proof. destruct slot_tables_ok as (_ & _ & _ & _ & (_ & _ & H) & _). intros E. rewrite E in H. discriminate. Qed.
-
-(* ---- minimum of a list -------------------------------------------------------------------------- *)
-Definition min_list (l : list N) : N := match l with [] => 0 | x :: r => fold_left N.min r x end.
-
-Lemma fold_min_le r : forall x, fold_left N.min r x <= x /\ (forall y, In y r -> fold_left N.min r x <= y).
-Proof.
-  induction r as [|a r IH]; intros x; cbn [fold_left]; [split; [lia | intros y []]|].
-  destruct (IH (N.min x a)) as [H1 H2]. split; [lia|]. intros y [<-|Hy]; [lia | apply H2, Hy].
-Qed.
-Lemma fold_min_in r : forall x, fold_left N.min r x = x \/ In (fold_left N.min r x) r.
-Proof.
-  induction r as [|a r IH]; intros x; cbn [fold_left]; [left; reflexivity|].
-  destruct (IH (N.min x a)) as [H|H]; [|right; right; exact H].
-  destruct (N.min_spec x a) as [[_ E]|[_ E]]; rewrite E in H; [left | right; left]; congruence.
-Qed.
-Lemma min_list_char l v : In v l -> (forall y, In y l -> v <= y) -> v = min_list l.
-Proof.
-  intros Hin Hmin. destruct l as [|x r]; [destruct Hin|]. cbn [min_list].
-  destruct (fold_min_le r x) as [H1 H2].
-  assert (Hle : fold_left N.min r x <= v).
-  { destruct Hin as [<-|Hin]; [exact H1 | apply H2, Hin]. }
-  assert (Hge : v <= fold_left N.min r x).
-  { destruct (fold_min_in r x) as [E|E]; [rewrite E; apply Hmin; left; reflexivity | apply Hmin; right; exact E]. }
-  lia.
-Qed.
 
 (* the rule-based value of n cards: the strongest (smallest) ordinal among all five-card sub-hands *)
 Definition best_value (ws : list N) : N := min_list (map value5 (combs ws 5)).
@@ -159,9 +44,14 @@ Lemma hrvh_n chk n ws :
     hrvh chk ws = Ok (v, sort_desc h) /\ In h (combs ws 5) /\ v = value5 h /\
     (forall c, In c (combs ws 5) -> v <= value5 c).
 Proof.
-  intros Hn H. pose proof H as (HL & _). unfold hrvh. rewrite HL. destruct Hn as [->| ->].
-  - apply (best_ok 6 SIX_PERMUTATIONS chk ws (conj six_complete six_nonempty) H).
-  - apply (best_ok 7 SEVEN_PERMUTATIONS chk ws (conj seven_complete seven_nonempty) H).
+  intros Hn H. pose proof H as (HL & _).
+  destruct (hrvh_table chk n ws Hn H) as (perms & p & T & Hp & Hr & Hmin & _ & Eperms).
+  assert (PC : complete_table n perms).
+  { rewrite Eperms. destruct Hn as [->| ->]; [exact six_complete | exact seven_complete]. }
+  exists (value5 (sel ws p)), (sel ws p). repeat split.
+  - exact Hr.
+  - eapply sel_in_combs; eauto.
+  - intros c Hc. destruct (combs_from_perm n perms ws c PC HL Hc) as [q [Hq ->]]. apply Hmin, Hq.
 Qed.
 
 Lemma value_n_ok chk n ws :
@@ -226,43 +116,6 @@ Proof.
     assert (Hc' : In c (combs ws 5)) by (rewrite E; right; exact Hc).
     apply In_combs in Hc'. destruct Hc' as [Hs Hl]. repeat split; try assumption; try (eapply sub_hand; eauto).
     symmetry. exact Hv.
-Qed.
-
-(* C03: the reported hand *)
-Lemma witness_ok chk n ws :
-  (n = 6 \/ n = 7)%nat -> HandN n ws ->
-  exists v h,
-    hrvh chk ws = Ok (v, h) /\ v = best_value ws /\
-    length h = 5%nat /\ NoDup h /\ incl h ws /\ noninc h /\ Forall RealCard h /\
-    hrvh chk h = Ok (v, h) /\ hand_rank_value chk h = Ok v.
-Proof.
-  intros Hn H. destruct (hrvh_n chk n ws Hn H) as (v & h & Hr & Hin & Hv & Hmin).
-  destruct (value_n_ok chk n ws Hn H) as (E1 & _). cbv zeta in E1.
-  assert (Ev : v = best_value ws).
-  { unfold hand_rank_value, rmap in E1. rewrite Hr in E1. cbn [bind fst] in E1. congruence. }
-  apply In_combs in Hin. destruct Hin as [Hs Hl].
-  pose proof (sub_hand _ _ _ H Hs Hl) as H5.
-  pose proof (sort_desc_perm h) as HP.
-  assert (H5' : Hand5 (sort_desc h)).
-  { destruct H5 as (A & B & C). repeat split.
-    - rewrite sort_desc_length. exact A.
-    - eapply Permutation_Forall; [symmetry; exact HP | exact B].
-    - eapply Permutation_NoDup; [symmetry; exact HP | exact C]. }
-  destruct (value_ok chk (sort_desc h) H5') as (V1 & V2 & _). cbv zeta in V1, V2.
-  assert (Eo : ordinal (shape_of (sort_desc h)) = v).
-  { rewrite Hv. symmetry. apply (value5_perm h (sort_desc h) H5). symmetry. exact HP. }
-  rewrite Eo in V1, V2.
-  exists v, (sort_desc h). destruct H5' as (A & B & C).
-  repeat split; try assumption.
-  - intros x Hx. apply (proj1 (sort_desc_In x h)) in Hx. eapply Subseq_incl; eauto.
-  - apply sort_desc_sorted.
-Qed.
-
-Lemma five_identity chk ws v h : length ws = 5%nat -> hrvh chk ws = Ok (v, h) -> h = ws.
-Proof.
-  intros HL H. unfold hrvh in H. rewrite HL in H. unfold hrvh5 in H.
-  match type of H with bind ?X _ = _ => destruct X; cbn [bind] in H; try discriminate H end.
-  now injection H.
 Qed.
 
 (* ---- C09: more cards never weaken a hand ------------------------------------------------------- *)
